@@ -13,6 +13,6 @@ cp -r "$SRC/xenium" "$S/xenium"
 cp -r "$SRC/test" "$S/test"
 ln -s "$SRC/3rdParty" "$S/3rdParty"
 if ! patch -s -p1 $REV -d "$S" < "$PATCH"; then echo "PATCH-FAILED $PATCH"; exit 3; fi
-XV_REPO="$S" XV_CACHE="$S/.cache" "$@"
+XV_REPO="$S" "$@"
 rc=$?
 exit $rc
